@@ -85,15 +85,17 @@ def run(cmd, cwd=None, timeout=3600, input=None):
     return p.returncode, p.stdout + p.stderr
 
 
-def property_files(prop):
-    """Properties/<prop>.lean plus split files Properties/<prop><Suffix>.lean (same namespace SR.<prop>)."""
+def property_files(prop, exclude=()):
+    """Properties/<prop>.lean plus split files Properties/<prop><Suffix>.lean (same namespace SR.<prop>).
+    `exclude`: module stems left out of this run (modules that depend on an unavailable translator tie)."""
     d = LEAN / "SRVerif" / "Properties"
-    return sorted(p for p in d.glob(f"{prop}*.lean") if re.fullmatch(rf"{prop}([A-Z][A-Za-z]*)?\.lean", p.name))
+    return sorted(p for p in d.glob(f"{prop}*.lean")
+                  if re.fullmatch(rf"{prop}([A-Z][A-Za-z]*)?\.lean", p.name) and p.stem not in exclude)
 
 
-def theorem_names(prop):
+def theorem_names(prop, exclude=()):
     names = []
-    for path in property_files(prop):
+    for path in property_files(prop, exclude):
         text = strip_comments(path.read_text())
         names += re.findall(r"^theorem\s+([A-Za-z0-9_'.]+)", text, flags=re.M)
     return names
@@ -117,6 +119,22 @@ def translate(prop):
     return tr.regenerate(prop)
 
 
+# VERIF_STRICT_TIE=1: an equivalence proof that no longer applies to the generated normal form counts as a
+# broken obligation even when Lean finds no input on which generated function and model differ.
+STRICT_TIE = os.environ.get("VERIF_STRICT_TIE", "") == "1"
+
+
+def translator_tie(prop):
+    """Second tie of DESIGN 4.2: function bodies translated mechanically from the source text and PROVED equal
+    to the hand-written model (harness/translate_py.py).  None for properties without one, else a dict with
+    status ok | unavailable | broken, text (evidence line), exclude (Properties modules not to build)."""
+    try:
+        tp = importlib.import_module("harness.translate_py")
+    except ModuleNotFoundError:
+        return None
+    return tp.tie(prop)
+
+
 def lean_build(prop, thorough=False):
     """Build the property's theorems and the driver; audit axioms.
 
@@ -134,15 +152,29 @@ def lean_build(prop, thorough=False):
     t0 = time.time()
     generated = translate(prop)
     out["generated"] = generated
+    tie = translator_tie(prop)
+    excluded = set()
+    if tie:
+        # unavailable: the modules stated about the generated functions are left out (no alarm, the caller
+        # falls back to the correspondence with the thorough budget); broken: they are left out AND the run
+        # counts as a failed proof obligation (deep search, then VIOLATION).
+        excluded = set(tie["exclude"])
+        out["generated"] = list(generated) + list(tie.get("generated", []))
+        out["translator_tie"] = tie["text"]
+        out["tie_status"] = tie["status"]
+        if tie.get("stale") and STRICT_TIE:
+            tie["status"] = out["tie_status"] = "broken"
+            tie["failing"] = ["translator tie (strict): " + tie["text"]]
+    files = property_files(prop, excluded)
     rc, log = run(["lake", "build", "driver"], cwd=LEAN)
     if rc != 0 or not DRIVER.exists():
         # The driver contains hand-written models only: this is our fault.
         raise Infra("driver build failed:\n" + log[-3000:])
-    mods = [f"SRVerif.Properties.{p.stem}" for p in property_files(prop)] or [f"SRVerif.Properties.{prop}"]
+    mods = [f"SRVerif.Properties.{p.stem}" for p in files] or [f"SRVerif.Properties.{prop}"]
     rc, log = run(["lake", "build"] + mods, cwd=LEAN)
     out["log"] = log[-6000:]
     out["build_ok"] = rc == 0
-    thms = theorem_names(prop)
+    thms = theorem_names(prop, excluded)
     out["theorems"] = thms
     if rc != 0:
         out["failing"] = re.findall(r"error: (\S+\.lean:\d+:\d+)", log)[:10] or ["lake build"]
@@ -165,7 +197,7 @@ def lean_build(prop, thorough=False):
         return run(["lake", "env", "lean", str(audit)], cwd=LEAN)
 
     with ThreadPoolExecutor(8) as ex:
-        results = list(ex.map(audit_one, property_files(prop)))
+        results = list(ex.map(audit_one, files))
     for rc, log in results:
         if rc != 0:
             out["failing"] = ["audit: " + log[-2000:]]
@@ -189,8 +221,13 @@ def lean_build(prop, thorough=False):
         if rc != 0:
             out["failing"] = ["leanchecker: " + log[-500:]]
             return out
-    out["ok"] = True
     out["build_s"] = round(time.time() - t0, 2)
+    if tie and tie["status"] == "broken":
+        # the generated functions provably differ from the model: gen_f_eq_model is a failed obligation
+        out["failing"] = list(tie["failing"])
+        out["log"] = tie.get("log", "")
+        return out
+    out["ok"] = True
     return out
 
 
@@ -324,6 +361,7 @@ def write_evidence(ctx, mod, proof, res, violations, extra=None):
         "axioms": proof["axioms"],
         "open_statements": list(getattr(mod, "OPEN", [])),
         "generated_from_source": proof.get("generated", []),
+        "translator_tie": proof.get("translator_tie"),
         "leanchecker": proof.get("leanchecker"),
         "evaluations": res.evaluations,
         "distinct_nontrivial": len(res.nontrivial),
@@ -372,6 +410,9 @@ def main(argv):
             return 0 if ok else 1
         proof = lean_build(prop, thorough=(tier == "thorough"))
         ctx = Ctx(prop, tier, seed)
+        # translator tie unavailable (not refuted): no alarm, but the hand-model correspondence that now
+        # carries the whole tie runs with the thorough budget
+        ctx.deep = proof.get("tie_status") == "unavailable"
         res = Result()
         if hasattr(mod, "corpus"):
             mod.corpus(ctx, res)
@@ -438,6 +479,7 @@ def verdict(ctx, mod, proof, res):
         "property": prop,
         "kind": "no-failing-input-found",
         "broken_theorems_or_build": proof["failing"],
+        "translator_tie": proof.get("translator_tie"),
         "build_log_tail": proof["log"][-3000:] if not proof["ok"] else "",
         "broken_correspondence": (res.mismatch + res2.mismatch)[:5],
         "searched_cases": res.evaluations,
